@@ -97,7 +97,7 @@ def build(S, tier):
     def configure(I):
         I.loop_contracts[loop_key] = loop_contract
 
-    for delta_kind in ("scalar", "per-coordinate"):
+    for delta_kind in ("scalar", "per-coordinate", "scalar, independent scaling masses"):
         def run(I, delta_kind=delta_kind):
             n = I.path.fresh("n", "int")
             I.path.assume(n.t >= 1)
@@ -109,6 +109,10 @@ def build(S, tier):
             I.setattr(mc, "masses_scaling_power", pw)
             if delta_kind == "per-coordinate":
                 mc.attrs["delta"] = PW(d, atoms.shape3)
+            if "independent" in delta_kind:
+                ms = I.path.fresh("scaling_mass")          # update_masses(user array): need not be the real masses
+                I.path.assume(ms.t > 0)
+                I.call(I.getattr(mc, "update_masses"), [PW(ms, atoms.shape3)], {})
             x0 = rep(atoms.positions)
             F0 = rep(atoms.forces)
             atoms.log.clear()
@@ -150,7 +154,7 @@ def build(S, tier):
             S.prove(f"{label}#ensures.zeta_in_unit_interval@{i}", z3.And(zeta >= -1, zeta < 1), hyps=hy)
             # bound and exact displacement
             disp = R(rep(at.positions)) - x0
-            m = R(at.mass)
+            m = R(rep(mc.attrs["shaped_masses"]))
             mins = [mm for (_, mm) in p.path.ghost.get("pw_min", [])]
             S.prove(f"{label}#ensures.single_mass_minimum@{i}", len(mins) == 1, kind="ensures", why=f"{len(mins)} np.min calls")
             if len(mins) == 1:
@@ -163,8 +167,6 @@ def build(S, tier):
             S.prove(f"{label}#ensures.one_set_positions_one_energy_evaluation@{i}",
                     sum(1 for e in log if isinstance(e, tuple) and e[0] == "set_positions") == 1 and log.count("get_potential_energy") == 1
                     and log.count("get_forces") == 1, kind="ensures", why=str(log))
-            S.prove(f"{label}#ensures.displacement_routed_through_constraints@{i}",
-                    [e for e in log if isinstance(e, tuple)] == [("set_momenta", True), ("set_positions", True)], kind="ensures", why=str(log))
             S.prove(f"{label}#ensures.returns_forces@{i}", isinstance(v["ret"], PW) and R(v["ret"].rep).eq(F0), kind="ensures")
             S.prove(f"{label}#ensures.all_draws_from_own_generator@{i}", all(dr[0] in ("uniform", "random") for dr in v["rng"].draws) and len(v["rng"].draws) >= 2, kind="ensures")
         S.prove(f"{label}#cover.loop_exit_path_exists", n_exit >= 1 and any(q.status == "cut" for q in paths), kind="cover",
